@@ -68,6 +68,27 @@ CHECKS = {
              "race-free harnesses) / <= 2 (thorough) are executed; every thread's outcome must equal its solo outcome and configuration + schema fingerprints must be restored.",
         note="Trusted: scheduler owns all shared mutable state reachable from the harness (audited by instrumenting every pandera object reachable from the schemas and the config module); preemption granularity = shared-state access, not bytecode.",
         ref="3/C07"),
+    "C08": dict(
+        technique="exhaustive enumeration of backend-neutral (schema, table) pairs within bounded edits; differential oracle pandas vs polars",
+        text="Every backend-neutral spec within <=2 schema edits (nullable, unique, required, strict, ordered, add_missing_columns, default, coerce, every built-in "
+             "check incl. regexes with top-level alternation / anchors / classes / empty pattern) and <=2 data edits of the 3-column base is validated lazily by both "
+             "backends: verdicts, failing (column, check, row, value) cells, frame-level error sets and parsed outputs (up to null representation) must be equal.",
+        note="Trusted: the exclusion list of documented / representational differences (mc/props/c08.py docstring): wrongly typed columns' check reports, nulls in int columns under coercion, uniqueness among nulls.",
+        ref="3/C08"),
+    "C09": dict(
+        technique="exhaustive enumeration of the live dtype registries of all four engines plus a finite parameter alphabet; all ordered pairs for check()",
+        text="For numpy, pandas(+pyarrow), polars and pyspark engines every registered spelling and every generated parametrisation is resolved; idempotence with equal hashes, "
+             "equality of registered equivalents, str round trip for primitive types (numpy/pandas/pyspark), self-recognition, and absence of cross-kind / signedness / width "
+             "recognition over all ordered pairs of distinct resolved types.",
+        note="Trusted: classification of a DataType into (kind, signedness, bit width) through the abstract pandera.dtypes hierarchy.",
+        ref="3/C09"),
+    "C10": dict(
+        technique="exhaustive enumeration of containers over a value pool up to a length bound for every coercible dtype; self-referential (singleton) oracle",
+        text="24 pandas data types (numpy, nullable-extension, pyarrow, datetime, timedelta, category, string, object) and 8 polars types x every container of length <= 2 "
+             "(thorough 3; polars one longer) over an 11-value mixed pool: success => same length/labels, own check passes, values equal the singleton coercions, idempotent; "
+             "failure => ParserError whose failure cases are exactly the elements whose singleton coercion fails.",
+        note="Trusted: 'individually coercible' is defined by the implementation's behaviour on singleton containers (differential, no expected values).",
+        ref="3/C10"),
     "C11": dict(
         technique="explicit-state exhaustive enumeration of a deviation-bounded input space against a reference model of row-level validity",
         text="Every (schema with drop_invalid_rows, table) within <=2 row-level constraint edits and <=2 data edits (nulls, duplicates, failing cells, string / reversed / "
